@@ -528,6 +528,12 @@ def receiveTrailers (c : Cfg) (s : S) : S :=
   let s := upAppendTrailers s
   if s.procDone then cleanStream c s else s
 
+/-- `s.responseTimer != nil` as `doRetry` reads it.  The field `gtObj` is the pointer (set when the timer is created, kept when it
+fires, forgotten by `cleanUp`); an armed timer has an object and an object exists only after the request was sent — on every
+reachable state `global → gtObj → reqSent` (`Lemmas/Downstream/Timer10.lean`: `timer_object_run`), so this IS `s.gtObj`
+(`hasTimerObj_eq`); written with the two implied facts so that the invariant proof does not depend on that lemma. -/
+def hasTimerObj (s : S) : Bool := (s.gtObj || s.global) && s.reqSent
+
 /-- the operations of `downStream.doRetry` on the machine state ([proxy10] `doRetry` is the REGENERATED step program
 `Gen.ProxyBackoff.doRetry`: what it re-checks after its back-off sleep — a pending local reply, the recorded expiry of the
 global timeout —, the no-host branch, the fresh upstream request, the three send calls each guarded by `processDone()`, the
@@ -542,7 +548,7 @@ def drOps (c : Cfg) : Gen.ProxyBackoff.Ops S where
   noHost := fun s => s.hostsGone
   hasData := fun _ => c.hasData
   hasTrailers := fun _ => c.hasTrailers
-  hasGlobalTimer := fun s => s.gtObj && s.reqSent   -- `s.responseTimer != nil`; a timer object exists only after the request was sent (`timer_object_sent`: on every schedule gtObj → reqSent), so this IS `s.gtObj`
+  hasGlobalTimer := hasTimerObj
   requestSent := fun s => s.reqSent
   noReuse := id
   raiseGlobalTimeout := fun s => upOnResetStream s .UpstreamGlobalTimeout
